@@ -1245,6 +1245,12 @@ class PythonSolver:
             self.state_n.dissipation.flatten(),
         )
 
+        # A material update that fails inside the block evaluation does not
+        # raise: it leaves its outputs untouched.  A tangent is never
+        # identically zero, so treat that as a failed sub-increment.
+        if np.any(np.all(A_np1.reshape(A_np1.shape[0], -1) == 0.0, axis=1)):
+            raise RuntimeError("Material update failed!")
+
         self.state_np1.stress = stress_np1.reshape(
             (self.state_np1.ne, self.state_np1.nqi, 3, 3)
         ).transpose(2, 3, 0, 1)
